@@ -185,6 +185,9 @@ func cmdCheck(args []string) int {
 				swept = false
 			}
 		}
+		if con != nil && con.Trusted {
+			continue // assumed contract: the body is not verified (listed as an assumption)
+		}
 		if tagged || swept {
 			targets = append(targets, k)
 			if swept {
